@@ -108,6 +108,183 @@ def _canonicalise_comparisons(tree):
             n.left, n.comparators, n.ops = n.comparators[0], [n.left], [_FLIP[type(n.ops[0])]()]
 
 
+def _canonicalise_import_aliases(tree):
+    """`import numpy as np` is read as `import numpy`, and every `np.x` as `numpy.x` (likewise any `import a.b as c` of a module outside the
+    package): no rule depends on the alias a module chose.  Skipped when the alias is rebound anywhere in the module."""
+    aliases = {}
+    imps = []
+
+    def scan(stmts):
+        for st in stmts:
+            if isinstance(st, ast.Import):
+                imps.append(st)
+            elif isinstance(st, (ast.If, ast.Try)):
+                for sub in ast.iter_child_nodes(st):
+                    if isinstance(sub, ast.stmt):
+                        scan([sub])
+                    elif isinstance(sub, ast.ExceptHandler):
+                        scan(sub.body)
+    scan(tree.body)
+    for st in imps:
+        for a in st.names:
+            if a.asname and a.asname != a.name and not a.name.startswith("pybrops"):
+                aliases.setdefault(a.asname, set()).add(a.name)
+    aliases = {k: next(iter(v)) for k, v in aliases.items() if len(v) == 1}
+    if not aliases:
+        return 0
+    bound = {}
+    for n in ast.walk(tree):
+        if isinstance(n, ast.Name) and isinstance(n.ctx, (ast.Store, ast.Del)):
+            bound[n.id] = True
+        elif isinstance(n, ast.arg):
+            bound[n.arg] = True
+        elif isinstance(n, (ast.FunctionDef, ast.AsyncFunctionDef, ast.ClassDef)):
+            bound[n.name] = True
+        elif isinstance(n, ast.ImportFrom):
+            for a in n.names:
+                bound[a.asname or a.name] = True
+        elif isinstance(n, ast.Import) and n not in imps:
+            for a in n.names:
+                bound[a.asname or a.name.split(".")[0]] = True
+        elif isinstance(n, ast.ExceptHandler) and n.name:
+            bound[n.name] = True
+    aliases = {k: v for k, v in aliases.items() if k not in bound and v.split(".")[0] not in bound}
+    if not aliases:
+        return 0
+    for st in imps:
+        for a in st.names:
+            if a.asname in aliases and aliases[a.asname] == a.name:
+                a.asname = None
+    count = 0
+
+    class T(ast.NodeTransformer):
+        def visit_Name(self, n):
+            nonlocal count
+            if isinstance(n.ctx, ast.Load) and n.id in aliases:
+                parts = aliases[n.id].split(".")
+                e = ast.Name(id=parts[0], ctx=ast.Load())
+                for p_ in parts[1:]:
+                    e = ast.Attribute(value=e, attr=p_, ctx=ast.Load())
+                count += 1
+                return ast.copy_location(e, n) if not parts[1:] else ast.fix_missing_locations(ast.copy_location(e, n))
+            return n
+    T().visit(tree)
+    for n in ast.walk(tree):
+        for c in ast.iter_child_nodes(n):
+            if not hasattr(c, "lineno") and hasattr(n, "lineno") and isinstance(c, (ast.expr, ast.stmt)):
+                ast.copy_location(c, n)
+    return count
+
+
+_NEGCMP = {ast.NotEq: ast.Eq, ast.IsNot: ast.Is, ast.NotIn: ast.In}
+
+
+def _canonicalise_branches(tree):
+    """Two layouts of the same alternatives are read alike:
+    (a) `if not c: A else: B` is read as `if c: B else: A`;
+    (b) `if c: <body that returns / raises / continues / breaks> else: B` is read as the if without else, followed by B."""
+    count = 0
+    for n in ast.walk(tree):
+        if isinstance(n, ast.If) and n.orelse and isinstance(n.test, ast.UnaryOp) and isinstance(n.test.op, ast.Not) \
+                and not (len(n.orelse) == 1 and isinstance(n.orelse[0], ast.If)):
+            n.test = n.test.operand
+            n.body, n.orelse = n.orelse, n.body
+            count += 1
+        # (a') a negative comparison with an else branch is read in its positive form: `if a != b: A else: B` as `if a == b: B else: A`
+        if isinstance(n, ast.If) and n.orelse and isinstance(n.test, ast.Compare) and len(n.test.ops) == 1 and type(n.test.ops[0]) in _NEGCMP \
+                and not (len(n.orelse) == 1 and isinstance(n.orelse[0], ast.If)):
+            n.test.ops = [_NEGCMP[type(n.test.ops[0])]()]
+            n.body, n.orelse = n.orelse, n.body
+            count += 1
+    changed = True
+    while changed:
+        changed = False
+        for owner in ast.walk(tree):
+            blks = [(owner, fld) for fld in ("body", "orelse", "finalbody") if isinstance(getattr(owner, fld, None), list)]
+            for o, fld in blks:
+                blk = getattr(o, fld)
+                if not (blk and isinstance(blk[0], ast.stmt)):
+                    continue
+                out = []
+                for st in blk:
+                    out.append(st)
+                    if isinstance(st, ast.If) and st.orelse and st.body and isinstance(st.body[-1], (ast.Return, ast.Raise, ast.Continue, ast.Break)):
+                        out.extend(st.orelse)
+                        st.orelse = []
+                        count += 1
+                        changed = True
+                if len(out) != len(blk):
+                    setattr(o, fld, out)
+            if isinstance(owner, ast.Try):
+                for h in owner.handlers:
+                    out = []
+                    for st in h.body:
+                        out.append(st)
+                        if isinstance(st, ast.If) and st.orelse and st.body and isinstance(st.body[-1], (ast.Return, ast.Raise, ast.Continue, ast.Break)):
+                            out.extend(st.orelse)
+                            st.orelse = []
+                            count += 1
+                            changed = True
+                    h.body = out
+    return count
+
+
+def _canonicalise_temporaries(tree):
+    """`t = E ; return t` is read as `return E`, and `t = E ; <target> = t` as `<target> = E`, when t is a local that is assigned once and read
+    once (here): the evaluation order is the same in both forms whatever E does, so no rule depends on whether a returned / stored value was
+    given a name first."""
+    count = 0
+    for fn in ast.walk(tree):
+        if not isinstance(fn, (ast.FunctionDef, ast.AsyncFunctionDef)):
+            continue
+        uses, stores = {}, {}
+        skip = {a.arg for a in fn.args.args + fn.args.kwonlyargs + fn.args.posonlyargs}
+        if fn.args.vararg:
+            skip.add(fn.args.vararg.arg)
+        if fn.args.kwarg:
+            skip.add(fn.args.kwarg.arg)
+        for n in ast.walk(fn):
+            if isinstance(n, ast.Name):
+                if isinstance(n.ctx, ast.Load):
+                    uses[n.id] = uses.get(n.id, 0) + 1
+                else:
+                    stores[n.id] = stores.get(n.id, 0) + 1
+            elif isinstance(n, (ast.Global, ast.Nonlocal)):
+                skip |= set(n.names)
+            elif isinstance(n, (ast.FunctionDef, ast.AsyncFunctionDef, ast.Lambda)) and n is not fn:
+                # names shared with a nested scope are left alone
+                for m in ast.walk(n):
+                    if isinstance(m, ast.Name):
+                        skip.add(m.id)
+        for owner in ast.walk(fn):
+            blks = [getattr(owner, fld, None) for fld in ("body", "orelse", "finalbody")]
+            if isinstance(owner, ast.Try):
+                blks += [h.body for h in owner.handlers]
+            for blk in blks:
+                if not (isinstance(blk, list) and blk and isinstance(blk[0], ast.stmt)):
+                    continue
+                i = 0
+                while i + 1 < len(blk):
+                    a, b = blk[i], blk[i + 1]
+                    if isinstance(a, ast.Assign) and len(a.targets) == 1 and isinstance(a.targets[0], ast.Name):
+                        t = a.targets[0].id
+                        if t not in skip and stores.get(t, 0) == 1 and uses.get(t, 0) == 1:
+                            if isinstance(b, ast.Return) and isinstance(b.value, ast.Name) and b.value.id == t:
+                                b.value = a.value
+                            elif isinstance(b, ast.Assign) and isinstance(b.value, ast.Name) and b.value.id == t \
+                                    and not any(isinstance(x, ast.Name) and x.id == t for tg in b.targets for x in ast.walk(tg)):
+                                b.value = a.value
+                            else:
+                                i += 1
+                                continue
+                            del blk[i]
+                            count += 1
+                            i = max(i - 1, 0)
+                            continue
+                    i += 1
+    return count
+
+
 class ClassInfo:
     def __init__(self, module, node):
         self.module = module
@@ -137,6 +314,9 @@ class Module:
         self.src = src
         self.tree = ast.parse(src, filename=path)
         _canonicalise_comparisons(self.tree)
+        self.aliases_canonicalised = 0 if os.environ.get("VERIF_NO_ALIAS_CANON") == "1" else _canonicalise_import_aliases(self.tree)
+        self.branches_canonicalised = 0 if os.environ.get("VERIF_NO_BRANCH_CANON") == "1" else _canonicalise_branches(self.tree)
+        self.temporaries_canonicalised = 0 if os.environ.get("VERIF_NO_TEMP_CANON") == "1" else _canonicalise_temporaries(self.tree)
         self.imports = {}  # local name -> ("module", dotted) | ("from", module, attr)
         self.classes = {}
         self.functions = {}
